@@ -182,13 +182,17 @@ pub trait TypeOps: Sync {
     fn ser_into(&self, v: &Value, ctx: &mut SerializationContext<Vec<u8>>) -> desert_core::Result<()>;
     /// read one value from a caller-owned context
     fn de_from(&self, ctx: &mut DeserializationContext<'_>) -> desert_core::Result<Value>;
+    /// items of this type written as a sequence through the public sequence entry points:
+    /// [("iter_unknown", serialize_iterator over an iterator without exact size hint),
+    ///  ("iter_exact", serialize_iterator over a slice iterator), ("slice", <[T] as BinarySerializer>)]
+    fn encode_as_sequences(&self, items: &[Value]) -> Vec<(&'static str, Outcome<Vec<u8>>)>;
 }
 
 pub struct Ops<T>(pub PhantomData<fn() -> T>);
 impl<T> Ops<T> {
     pub const NEW: Self = Ops(PhantomData);
 }
-impl<T: ModelType + BinarySerializer + BinaryDeserializer> TypeOps for Ops<T> {
+impl<T: ModelType + BinarySerializer + BinaryDeserializer + 'static> TypeOps for Ops<T> {
     fn rust_name(&self) -> &'static str {
         std::any::type_name::<T>()
     }
@@ -212,6 +216,29 @@ impl<T: ModelType + BinarySerializer + BinaryDeserializer> TypeOps for Ops<T> {
     }
     fn de_from(&self, ctx: &mut DeserializationContext<'_>) -> desert_core::Result<Value> {
         Ok(T::deserialize(ctx)?.to_model())
+    }
+    fn encode_as_sequences(&self, items: &[Value]) -> Vec<(&'static str, Outcome<Vec<u8>>)> {
+        let xs: Vec<T> = match guarded(|| items.iter().map(T::from_model).collect()) {
+            Ok(x) => x,
+            Err(p) => return vec![("glue", Outcome::Panic(p))],
+        };
+        vec![
+            ("iter_unknown", lift(guarded(|| {
+                let mut ctx = SerializationContext::new(Vec::new());
+                desert_core::serialize_iterator(&mut xs.iter().filter(|_| true), &mut ctx)?;
+                Ok(ctx.into_output())
+            }))),
+            ("iter_exact", lift(guarded(|| {
+                let mut ctx = SerializationContext::new(Vec::new());
+                desert_core::serialize_iterator(&mut xs.iter(), &mut ctx)?;
+                Ok(ctx.into_output())
+            }))),
+            ("slice", lift(guarded(|| {
+                let mut ctx = SerializationContext::new(Vec::new());
+                xs[..].serialize(&mut ctx)?;
+                Ok(ctx.into_output())
+            }))),
+        ]
     }
 }
 
